@@ -727,7 +727,7 @@ def show(t, depth=0, maxdepth=7):
     if k == 'var':
         return '%s~' % t[3]
     if k == 'const':
-        if t[3]:
+        if len(t) > 3 and t[3]:
             return t[3].split('::')[-1]
         return repr(t[2]) if not isinstance(t[2], str) or len(t[2]) < 70 else repr(t[2][:67] + '...')
     if k == 'call':
